@@ -27,6 +27,8 @@ def main(argv=None):
         print("no such check: %s (%s)" % (pid, e))
         return 2
     t0 = time.time()
+    os.environ.pop("VF_SCRATCH", None)
+    core.scratch_dir()
     try:
         boot.load(getattr(mod, "VARIANT", "plain"))
     except build.BuildError as e:
